@@ -91,9 +91,16 @@ def run(res):
         n = r.choice([1, 2, 3, 6, 10, 16, 24])
         gop = gen_gop(r, n, wrap=r.random() < 0.3, neg_leading=neg)
         frames = build(r, gop, el=r.random() < 0.4, aud=r.random() < 0.8)
+        real_chunk = k < (2 if res.tier == "quick" else 10)
+        if real_chunk:
+            # larger than the real 100 kB read size, no hook override: a large prefix SEI NAL in two access units
+            for fi in sorted({0, len(frames) // 2}):
+                f = frames[fi]
+                pos = 1 if f and f[0].type == 35 else 0
+                f.insert(pos, S.SNal(H.sei_nal([(200, H.filler(r, r.choice([60000, 99990, 100003])))])))
         nals = S.flatten(frames)
         data = S.stream_bytes(r, nals, sc=r.choice(["four", "mixed"]))
-        cs = r.choice([None, 1000, 2000, 10000])
+        cs = None if real_chunk else r.choice([None, 1000, 2000, 10000])
         key = "negative-leading-poc" if neg else None
         tags = [S.tagged_rpu(r, i) for i in range(len(gop))]
         # frames carry tagged_rpu(fi) by construction (gen_frames without pool): recover them
@@ -160,7 +167,7 @@ def run(res):
         annexb = r.random() < 0.3
         args = (["--start-code", "annex-b"] if annexb else []) + ["inject-rpu", "-i", inp2, "--rpu-in", rpuf, "-o", outh] + (["--no-add-aud"] if noaud else [])
         # the hook also drives the RPU file reader, whose BufReader needs requests >= 8192 bytes
-        cs = r.choice([None, 10000, 12500, 20000, 50000])
+        cs = None if real_chunk else r.choice([None, 10000, 12500, 20000, 50000])
         ec, txt = cli.run(args, w.dir, chunk_size=cs)
         nrun += 1
         kinds["inject"] = kinds.get("inject", 0) + 1
